@@ -998,6 +998,8 @@ func (l *lexer) lexCode(end tokenTyp) error {
 		index int
 		txt   string
 	}
+	// label reports whether the first token is an identifier, that may be a label.
+	var label bool
 	// endLineAsSemicolon reports whether "\n" should be treated as ";".
 	var endLineAsSemicolon = false
 	// unclosedLeftBraces is the number of left braces lexed without a
@@ -1402,10 +1404,18 @@ LOOP:
 							l.ctx = l.contexts[last]
 							l.contexts = l.contexts[:last]
 						}
-					case tokenIf, tokenFor, tokenSwitch, tokenSelect:
+					case tokenIf, tokenFor, tokenSwitch, tokenSelect, tokenRaw:
 						if len(l.contexts) > 0 {
 							l.contexts = append(l.contexts, l.ctx)
 						}
+					case tokenIdentifier:
+						// It may be the label of a labeled statement.
+						label = true
+					}
+				} else if label && l.totals == first+2 && (typ == tokenIf || typ == tokenFor || typ == tokenSwitch || typ == tokenSelect) {
+					// Labeled statement: it is closed by an 'end' as the unlabeled one.
+					if len(l.contexts) > 0 {
+						l.contexts = append(l.contexts, l.ctx)
 					}
 				} else if typ == tokenUsing {
 					macroOrUsing = true
